@@ -119,7 +119,7 @@ func (r *rng) fixedText(f *genField, canonical bool) string {
 	}
 	// blank-like runs at the trimmed end that are NOT the pad: 8+ spaces / NULs / zeros in a field padded with something
 	// else, wide and no-break spaces, a '!' after a blank (pad xor 1), tabs - what a "smarter" trim may take for padding
-	if n >= 2 && r.chance(1, 3) {
+	if n >= 2 && r.chance(1, 2) {
 		tails := [][]byte{bytes.Repeat([]byte{' '}, 8), bytes.Repeat([]byte{' '}, 16), bytes.Repeat([]byte{0}, 8), bytes.Repeat([]byte{'0'}, 8),
 			{0xe3, 0x80, 0x80}, {0xe3, 0x80, 0x80, 0xe3, 0x80, 0x80}, {0xa1, 0xa1}, {0xc2, 0xa0}, {'\t'}, {' ', '!'}, {' ', '!', '!'}, {pad ^ 1}, {' ', pad ^ 1},
 			{pad ^ 0x80}, {'\r', '\n'}}
@@ -428,7 +428,35 @@ func (r *rng) unregisteredStr(tb *genTable) string {
 }
 
 // a random type weighted toward frames and list-bearing types now and then
-func (r *rng) pickType() *genType { return &genTypes[r.intn(len(genTypes))] }
+func (r *rng) pickType() *genType {
+	switch r.intn(6) {
+	case 0, 1:
+		// a frame: receivers of frames carry the most history (body type, computed fields)
+		var frames []*genType
+		for i := range genTypes {
+			if isFrame(&genTypes[i]) {
+				frames = append(frames, &genTypes[i])
+			}
+		}
+		if len(frames) > 0 {
+			return frames[r.intn(len(frames))]
+		}
+	case 2:
+		var lists []*genType
+		for i := range genTypes {
+			for _, f := range genTypes[i].Fields {
+				if f.Kind == "ints" || f.Kind == "strs" || f.Kind == "ptrs" {
+					lists = append(lists, &genTypes[i])
+					break
+				}
+			}
+		}
+		if len(lists) > 0 {
+			return lists[r.intn(len(lists))]
+		}
+	}
+	return &genTypes[r.intn(len(genTypes))]
+}
 
 func isFrame(t *genType) bool {
 	for _, f := range t.Fields {
